@@ -4,6 +4,7 @@ CONSTANTS
   Rots <- QuickRots
   Emit = TRUE
   RpeN = {3}
+  Light = FALSE
 INVARIANT MImpliesP
 INVARIANT Corollaries
 INVARIANT StatsTheorem
